@@ -181,8 +181,10 @@ class C05(core.Check):
         if ctx.startswith('straddle'):
             # wa (or a control word after it) is the last thing inside an argument; separator follows the '}'
             tailctl = ''
+            optarg = False
             if ctx == 'straddle_ctrl' or rnd.random() < .4:
-                tailctl = rnd.choice([' \\LaTeX', ' \\zzunk', '\\S', ' \\TeX'])
+                tailctl = rnd.choice([' \\LaTeX', ' \\zzunk', '\\S', ' \\TeX', '\\footnotemark', ' \\footnotemark'])
+                optarg = 'footnotemark' in tailctl
             opener = {'straddle_declarg': rnd.choice(['\\textcolor{hcQ}{', '\\href{huQ}{', '\\LTadd{']),
                       'straddle_unkarg': '\\zzmac{', 'straddle_userarg': '\\ym{',
                       'straddle_ctrl': rnd.choice(['\\textcolor{hcQ}{', '\\zzmac{', '\\ym{', '{'])}[ctx]
@@ -191,7 +193,7 @@ class C05(core.Check):
             # nothing glues the words -- allowed, then counts stays False
             src = pre + 'wpre ' + opener + wa + tailctl + '}' + sep + wb + ' wpost'
             wa_out = wa
-            return src, wa_out, wb, counts, haspar, atoms, tailctl
+            return src, wa_out, wb, counts, haspar, atoms, tailctl + ('|optarg' if optarg else '')
         if ctx in ('heading', 'cell'):
             # paragraph breaks inside a heading / table cell are not meaningful LaTeX
             if haspar:
@@ -226,6 +228,10 @@ class C05(core.Check):
         allowed = ['Proof.', 'Beweis.', 'yvmtitle'] if haspar else []
         for a in allowed:
             between = between.replace(a, '', 1)
+        optarg = ctl.endswith('|optarg')
+        if optarg:
+            ctl = ctl[:-7]
+            cnt['straddle_optarg'] = 1
         if ctl:
             # the control word that ends the argument: [blank] + its text + separator
             m2 = re.match(r'(\s*)(LaTeX|TeX|§)', between)
@@ -233,7 +239,7 @@ class C05(core.Check):
                 if bool(m2.group(1)) != ctl.startswith(' '):
                     return dict(ok=False, nt=True, key='blank-before-control-word', cnt=cnt, obs=None, detail=detail)
                 between = between[m2.end():]
-            elif ctl.startswith(' ') and 'zzunk' in ctl:
+            elif ctl.startswith(' ') and ('zzunk' in ctl or 'footnotemark' in ctl):
                 # no output of its own: its leading blank and the separator merge
                 counts = True
         if 'Q' in t:
@@ -254,7 +260,8 @@ class C05(core.Check):
                 return dict(ok=False, nt=True, key='paragraph-invented:' + first_kind, cnt=cnt, obs=None, detail=detail)
             if counts and not between:
                 return dict(ok=False, nt=True,
-                            key='glued:' + (case['ctx'] if case['ctx'].startswith('straddle') else first_kind),
+                            key='glued:' + ('straddle-optarg' if optarg else case['ctx'] if case['ctx'].startswith('straddle')
+                                            else first_kind),
                             cnt=cnt, obs=None, detail=detail)
             if not counts and between:
                 return dict(ok=False, nt=True, key='space-invented:' + first_kind, cnt=cnt, obs=None, detail=detail)
